@@ -178,3 +178,74 @@ func Web(r *rand.Rand) []byte {
 	}
 	return out
 }
+
+// Boundary builds a name list whose last name has a dotted length within a few octets of the RFC 1035 limit (253
+// characters = 255 octets on the wire), on either side of it, and is ended in each of the three possible ways: by a
+// root octet, by the end of the buffer (the RFC 4704 partial name) or by a compression pointer to a label of an
+// earlier complete name.  Earlier names are short.
+func Boundary(r *rand.Rand) []byte {
+	var out []byte
+	type tgt struct{ off, dotted int } // dotted length of the name that starts at off
+	var tgts []tgt
+	for k := r.IntN(3); k > 0; k-- {
+		nl := 1 + r.IntN(3)
+		var lens []int
+		start := len(out)
+		for i := 0; i < nl; i++ {
+			l := 1 + r.IntN(10)
+			lens = append(lens, l)
+			out = append(out, byte(l))
+			for j := 0; j < l; j++ {
+				out = append(out, byte('a'+r.IntN(26)))
+			}
+		}
+		out = append(out, 0)
+		off := start
+		for i := range lens {
+			d := -1
+			for _, l := range lens[i:] {
+				d += l + 1
+			}
+			tgts = append(tgts, tgt{off, d})
+			off += 1 + lens[i]
+		}
+	}
+	target := 247 + r.IntN(13) // 247..259
+	end := r.IntN(3)           // 0 root, 1 end of buffer, 2 pointer
+	remain := target
+	var t tgt
+	if end == 2 {
+		if len(tgts) == 0 {
+			end = r.IntN(2)
+		} else {
+			t = tgts[r.IntN(len(tgts))]
+			remain = target - t.dotted - 1
+		}
+	}
+	cur := -1 // dotted length produced so far (-1: no label yet)
+	for cur < remain {
+		gap := remain - cur - 1 // label length that would finish exactly
+		l := 1 + r.IntN(63)
+		switch {
+		case gap <= 63 && (l >= gap || r.IntN(3) == 0):
+			l = gap
+		case l == gap-1: // would leave room for a dot but no label
+			l--
+		}
+		if l < 1 {
+			break
+		}
+		out = append(out, byte(l))
+		for j := 0; j < l; j++ {
+			out = append(out, byte('a'+r.IntN(26)))
+		}
+		cur += l + 1
+	}
+	switch end {
+	case 0:
+		out = append(out, 0)
+	case 2:
+		out = append(out, 0xC0|byte(t.off>>8), byte(t.off))
+	}
+	return out
+}
